@@ -48,6 +48,12 @@ def ref_fn(r):
     return out
 
 
+def key_scale(k, rmax, s1):
+    if k in ALG:
+        return max(rmax, 1e-12)
+    return max(rmax, s1 ** 2 if k in ('shear2', 'omega2') else s1)
+
+
 def case(task):
     desc, p, Ns, seed = task[:4]
     vacuum = bool(task[4]) if len(task) > 4 else False
@@ -77,8 +83,7 @@ def case(task):
                     vacuum=vacuum)
             for k in ALG + FDKEYS:
                 rmax = float(np.abs(ref[k]).max())
-                sc = max(rmax, 1e-12) if k in ALG else max(
-                    rmax, s1 ** 2 if k in ('shear2', 'omega2') else s1)
+                sc = key_scale(k, rmax, s1)
                 res['err'].setdefault(k, []).append(
                     gc.err(vals[k], ref[k], sc))
                 res['refmax'][k] = rmax
@@ -97,6 +102,17 @@ def case(task):
                 res['err'].setdefault(k, []).append(
                     gc.err(d, np.zeros_like(d), sc))
                 res['refmax'][k] = sc
+        def ref_scale(N):
+            rel, st, (X, Y, Z), inp = gc.build_core(
+                desc, seed, p, N, with_T=False, vacuum=vacuum)
+            ref = gc.ref_chunks(st, fields.T0, X, Y, Z, ref_fn)
+            s1 = max(float(ref['_scale1'].max()), 1e-3)
+            return {k: (ref[k], key_scale(
+                k, float(np.abs(ref[k]).max()), s1)) for k in ALG + FDKEYS}
+        # a variant that differs from the forward values is judged against
+        # the reference like them (grcommon.alt_errors)
+        gc.alt_errors(res, desc, seed, p, Ns, ALG + FDKEYS, ref_scale,
+                      with_T=False, vacuum=vacuum)
     except Exception:      # noqa: BLE001
         import traceback
         res['raised'] = traceback.format_exc()[-600:]
@@ -150,20 +166,31 @@ def main(tier):
             run.violation(f"C19:raised:{desc[0]}", f"{tag}: {r['raised']}",
                           {'task': r['task']})
             continue
-        for k, d in r.get('style', {}).items():
-            if not d <= 1e-9:
-                run.violation(f"C19:input-style:{k}",
+        def judge_err(k, e_lo, e_hi, desc=desc, p=p):
+            if k in ALG or desc[0] == 'ds':
+                return (e_lo <= 1e-9 and e_hi <= 1e-9,
+                        f"algebraic/exact: rel err {e_lo:.2e},{e_hi:.2e}")
+            return gc.converges(e_lo, e_hi, p, cap=gc.CAPS[p])
+
+        for kind, sig, text in (
+                ('style', 'input-style',
+                 "metric, curvature and shift are given by components "
+                 "instead of arrays (fresh instance, reverse request "
+                 "order)"),
+                ('order', 'order-dependent',
+                 "the keys are requested in reverse order on a fresh "
+                 "instance")):
+            for k, d in r.get(kind, {}).items():
+                if d <= 1e-9:
+                    continue
+                ok, why = gc.alt_verdict(r, kind, k, judge_err)
+                if ok:
+                    run.count('variant_differs_but_converges')
+                    continue
+                run.violation(f"C19:{sig}:{k}",
                               f"{tag}: {k} differs by {d:.2e} (relative) "
-                              "when metric, curvature and shift are given "
-                              "by components instead of arrays (fresh "
-                              "instance, reverse request order)",
-                              {'task': r['task'], 'key': k})
-        for k, d in r.get('order', {}).items():
-            if not d <= 1e-9:
-                run.violation(f"C19:order-dependent:{k}",
-                              f"{tag}: {k} differs by {d:.2e} (relative) "
-                              "when the keys are requested in reverse order "
-                              "on a fresh instance",
+                              f"when {text}, and the variant does not "
+                              f"converge to the exact value either ({why})",
                               {'task': r['task'], 'key': k})
         for k, (e_lo, e_hi) in r['err'].items():
             nontrivial = r['refmax'][k] > 1e-6
@@ -171,11 +198,7 @@ def main(tier):
             run.count('comparisons')
             if nontrivial:
                 run.count('nontrivial_comparisons')
-            if k in ALG or desc[0] == 'ds':
-                ok = e_lo <= 1e-9 and e_hi <= 1e-9
-                why = f"algebraic/exact: rel err {e_lo:.2e},{e_hi:.2e}"
-            else:
-                ok, why = gc.converges(e_lo, e_hi, p, cap=gc.CAPS[p])
+            ok, why = judge_err(k, e_lo, e_hi)
             if p == 8 and desc[0] == 'lattice' and ok:
                 worst[k] = max(worst.get(k, 0.0), e_hi)
             if not ok:
